@@ -92,6 +92,22 @@ def c_tzid_from_dt(engine, st, args, kw):
     return out
 
 
+def load_string_constants(eng):
+    """module-level constants that are collections of string literals (e.g. a set of names): usable in `in` tests"""
+    for mn in ("prop", "cal"):
+        for n in source.module(mn).tree.body:
+            if isinstance(n, ast.Assign) and len(n.targets) == 1 and isinstance(n.targets[0], ast.Name):
+                v = n.value
+                if isinstance(v, ast.Call) and isinstance(v.func, ast.Name) and v.func.id in ("frozenset", "set", "tuple") and len(v.args) == 1:
+                    v = v.args[0]
+                try:
+                    lit = ast.literal_eval(v)
+                except Exception:  # noqa
+                    continue
+                if isinstance(lit, (tuple, list, set, frozenset)) and lit and all(isinstance(x, str) for x in lit):
+                    eng.globals.setdefault(n.targets[0].id, E.VTuple([E.VStr(z3.StringVal(x)) for x in sorted(lit)]))
+
+
 def make_engine():
     lat = E.Lattice()
     for m in ("caselessdict", "parser", "prop", "cal"):
@@ -116,19 +132,7 @@ def make_engine():
     eng.contracts["op:getitem"] = getitem
     E.BUILTINS["tzid_from_dt"] = c_tzid_from_dt
     eng.globals["tzid_from_dt"] = E.VBuiltin("tzid_from_dt")
-    # module-level constants that are collections of string / int literals (e.g. a set of names): usable in `in` tests
-    for mn in ("prop", "cal"):
-        for n in source.module(mn).tree.body:
-            if isinstance(n, ast.Assign) and len(n.targets) == 1 and isinstance(n.targets[0], ast.Name):
-                v = n.value
-                if isinstance(v, ast.Call) and isinstance(v.func, ast.Name) and v.func.id in ("frozenset", "set", "tuple") and len(v.args) == 1:
-                    v = v.args[0]
-                try:
-                    lit = ast.literal_eval(v)
-                except Exception:  # noqa
-                    continue
-                if isinstance(lit, (tuple, list, set, frozenset)) and lit and all(isinstance(x, str) for x in lit):
-                    eng.globals.setdefault(n.targets[0].id, E.VTuple([E.VStr(z3.StringVal(x)) for x in sorted(lit)]))
+    load_string_constants(eng)
     return eng
 
 
@@ -987,6 +991,7 @@ def add_obligations(rep, tier):
         st.assume(r != E.NONE, z3.Not(engine.lat.isinstance_z(r, ["list"])))
         return [(st, E.VRef(r)), (s2, E.VExc("Exception", "whatever the value class raises"))]
     eng.contracts["Component._encode"] = c_encode
+    load_string_constants(eng)
     rep.functions.add(fn)
     name, value, parameters = z3.Const("name", E.S), z3.Const("value", E.Ref), z3.Const("parameters", E.Ref)
     st = E.State()
